@@ -54,10 +54,7 @@ func (propC07) Gen(seed uint64, tier string, idx int) *Plan {
 		ep.Models = []string{"m1", fmt.Sprintf("only-b%d", i)}
 		ep.Default = Resp{Kind: "llm", Status: 200}
 		// a slow probe answers inside the configured check_timeout (20-95 % of it): it must count as answered
-		eff := ep.CheckTimeout
-		if eff > 12*time.Second {
-			eff = 12 * time.Second // the check round itself is given 15 s
-		}
+		eff := ep.CheckTimeout // (whatever validation accepts: up to 30 s, and below the check interval)
 		// phases: piece-wise constant probe behaviour
 		t := Always
 		for t < total {
@@ -232,9 +229,6 @@ func (propC07) Check(r *Run) []Violation {
 				continue
 			}
 			granted := ep.CheckTimeout
-			if granted > 12*time.Second {
-				granted = 12 * time.Second
-			}
 			if waited := e.PeerGoneAt - e.ArrivedAt; waited < granted-500*time.Millisecond {
 				add("C07/probe-abandoned-before-check-timeout", "endpoint %s (check_timeout %s): the checker hung up on the probe that arrived at %s after %s, while the backend was still inside the time it is allowed (%s)", ep.Name, ep.CheckTimeout, e.ArrivedAt, waited, e.FaultFired)
 				break
